@@ -1,6 +1,7 @@
 import CalVerif.Prim.Wire
 import CalVerif.Model.XlsxCells
 import CalVerif.Spec.XlsxSheet
+import CalVerif.Model.XlsxContainer
 /-! Driver for C01 (model of the xlsx worksheet reader). One request line → one reply line.
 
     a1 <hex>…            → `;`-joined results of `get_row_and_optional_column`:  `ok <row> <col|->` | `err:<class>` | `panic`
@@ -14,6 +15,8 @@ import CalVerif.Spec.XlsxSheet
     sst <ev>…            → `read_shared_strings`:  `ok <n> <hex>×n` | `err:<class>`
     sheet <formats> <n> <string hex>×n <ev>…   → reader on a worksheet part (see `sheetReply`)
     render <layout> <sheet>            → the Lean encoder's events for a logical sheet (see `Spec/XlsxSheet.lean`)
+    container <n> <entry name hex>×n W=<entry hex> <ev>… R=<entry hex> <ev>…   → the sheet table and, per sheet, the entry
+                                          `worksheet_cells_reader` opens (see `containerReply`)
 
     events: `s:<name>:<k>=<hex>,…|-`  `e:<name>`  `t:<hex>`  `o`   (`.` in a name stands for `:`) -/
 
@@ -321,6 +324,75 @@ def handleRender (args : List String) : String :=
     | _, _ => "bad-render"
   | _ => "bad-render"
 
+/-! container glue (`Model/XlsxContainer.lean`) -/
+
+def strOfHex (h : String) : Option String := do
+  let bs ← Wire.bytesOfHex h
+  String.fromUTF8? (ByteArray.mk bs.toArray)
+
+def hexOfStr (s : String) : String := Wire.hexOrDash s.toUTF8.toList
+
+def unDot (s : String) : String := String.ofList (s.toList.map fun c => if c = '.' then ':' else c)
+
+def metaAttrs (s : String) : Option (List (String × String)) :=
+  if s = "-" then some [] else
+  (s.splitOn ",").mapM fun kv =>
+    match kv.splitOn "=" with
+    | [k, v] => (strOfHex v).map fun b => (unDot k, b)
+    | _ => none
+
+def metaEv (w : String) : Option Meta.Ev :=
+  if w = "o" then some .other else
+  match w.splitOn ":" with
+  | ["s", n, a] => (metaAttrs a).map fun at_ => .start (unDot n) at_
+  | ["e", n] => some (.end_ (unDot n))
+  | ["t", h] => (strOfHex h).map .text
+  | ["c", h] => (strOfHex h).map .cdata
+  | _ => none
+
+def errClass (e : String) : String := (e.splitOn ":").headD e
+
+/-- `ok <name hex>:<kind>:<visibility>:<path hex>:<opened entry hex | !err class>;…` or `err:<class>` -/
+def containerReply (names : List String) (wname : String) (wevs : List Meta.Ev) (rname : String) (revs : List Meta.Ev) : String :=
+  let a : XlsxContainer.Archive Unit :=
+    { names := names, xml := fun e => if e = rname then revs else if e = wname then wevs else [], content := fun _ => () }
+  match XlsxContainer.sheetTable a with
+  | .ok table =>
+    let rows := table.map fun s =>
+      let opened := match XlsxContainer.openSheetEntry a s.1.name with
+        | .ok e => hexOfStr e
+        | .err e => "!" ++ errClass e
+        | _ => "!panic"
+      s!"{hexOfStr s.1.name}:{s.1.typ.tag}:{s.1.visible.tag}:{hexOfStr s.2}:{opened}"
+    "ok " ++ (if rows.isEmpty then "-" else ";".intercalate rows)
+  | .err e => "err:" ++ errClass e
+  | .panic _ => "panic"
+  | .outOfFuel => "fuel"
+
+def splitAtPrefix (pre : String) (ws : List String) : List String × List String :=
+  (ws.takeWhile (fun w => !w.startsWith pre), ws.dropWhile (fun w => !w.startsWith pre))
+
+def handleContainer (args : List String) : String :=
+  match args with
+  | n :: rest =>
+    match n.toNat? with
+    | some n =>
+      match (rest.take n).mapM strOfHex with
+      | some names =>
+        match rest.drop n with
+        | w :: more =>
+          let (wws, rws) := splitAtPrefix "R=" more
+          match rws with
+          | r :: rrest =>
+            match strOfHex (w.drop 2).toString, strOfHex (r.drop 2).toString, wws.mapM metaEv, rrest.mapM metaEv with
+            | some wname, some rname, some wevs, some revs => containerReply names wname wevs rname revs
+            | _, _, _, _ => "bad-container-events"
+          | [] => "bad-container"
+        | [] => "bad-container"
+      | none => "bad-names"
+    | none => "bad-container"
+  | _ => "bad-container"
+
 def mapHex (args : List String) (f : Bytes → String) : String :=
   ";".intercalate (args.map fun a => match natsOfHex a with | some b => f b | none => "bad-hex")
 
@@ -352,6 +424,7 @@ def handle (line : String) : String :=
     | none => "bad-events"
   | "sheet" :: args => handleSheet args
   | "render" :: args => handleRender args
+  | "container" :: args => handleContainer args
   | _ => "bad-op"
 
 def main : IO Unit := Wire.run handle
